@@ -237,7 +237,7 @@ func runC05(c *core.Ctx) {
 	if i%50 == 7 {
 		steps = 3000
 	}
-	if i%600 == 31 || i%600 == 32 || i%600 == 33 || i%600 == 34 || i%600 == 35 {
+	if i%601 >= 31 && i%601 <= 35 { // (601 is prime: every container kind gets big cases)
 		// sizes and lap counts that small tests never reach: fill to thousands,
 		// drain half, refill, many wrap-arounds of a large ring
 		if m.Cap > 0 {
